@@ -11,9 +11,23 @@ func init() { register("pbuild", drivePBuild) }
 
 func extendPath(p cty.Path, sj J, variant int) cty.Path {
 	if asS(sj["s"]) == "attr" {
+		if p == nil && variant%4 >= 2 {
+			return cty.GetAttrPath(asS(sj["n"]))
+		}
 		return p.GetAttr(asS(sj["n"]))
 	}
 	key := Concretize(asJ(sj["key"]), 0)
+	if p == nil && variant%4 >= 2 {
+		// the package-level constructors of one-step paths
+		if key.Type() == cty.Number && variant%8 >= 4 {
+			if i, acc := key.AsBigFloat().Int64(); acc == 0 {
+				return cty.IndexIntPath(int(i))
+			}
+		} else if key.Type() == cty.String && variant%8 >= 4 {
+			return cty.IndexStringPath(key.AsString())
+		}
+		return cty.IndexPath(key)
+	}
 	if variant%2 == 1 {
 		if key.Type() == cty.Number {
 			if i, acc := key.AsBigFloat().Int64(); acc == 0 {
@@ -62,6 +76,18 @@ func drivePBuild(c *Ctx) error {
 				ev["panic"] = trunc(msg)
 			}
 			ev["regs"] = J{"cur": ProjectPath(regs["cur"]), "s1": ProjectPath(regs["s1"]), "s2": ProjectPath(regs["s2"])}
+			// relations between the registers as the path API reports them
+			hp, eq := J{}, J{}
+			for _, x := range []string{"cur", "s1", "s2"} {
+				hx, ex := J{}, J{}
+				for _, y := range []string{"cur", "s1", "s2"} {
+					x, y := x, y
+					guard(func() { hx[y] = regs[x].HasPrefix(regs[y]) })
+					guard(func() { ex[y] = regs[x].Equals(regs[y]) })
+				}
+				hp[x], eq[x] = hx, ex
+			}
+			ev["hp"], ev["eq"] = hp, eq
 			c.Out.Emit(ev)
 			if p {
 				break
